@@ -288,4 +288,4 @@ def main(chk: Check) -> None:
                     "n_inputs": st.sampled_from([0, 1, 2, 3, 4, 5]),
                 }
             )
-            chk.explore(f"{kind}_{tclass}", strat, run_case, quick=200, thorough=3000)
+            chk.explore(f"{kind}_{tclass}", strat, run_case, quick=400, thorough=4000)
